@@ -345,6 +345,191 @@ pub fn scenarios(thorough: bool) -> Vec<(Adv, usize)> {
     }
 }
 
+/// A connection whose peer stops reading (so its task sits in a socket write) while the session
+/// completes `later` more pieces: the announcements pile up in the task's broadcast queue. When the
+/// peer reads again and unchokes, every announcement held back must be delivered -- or the
+/// connection must be over (nothing is owed on a connection the client has ended).
+/// Real session (`verif_run`), accept path, two loopback TCP connections, real clock.
+pub fn socket_lag_case(dir: &std::path::PathBuf, later: usize) -> Result<(usize, Option<(&'static str, String)>), String> {
+    use crate::fixture::Torrent;
+    use tokio::io::{AsyncReadExt, AsyncWriteExt};
+    use std::time::{Duration, Instant};
+    core::wipe_dir(dir);
+    rdest::verif::clear_snapshots();
+    rdest::verif::set_choices(vec![]);
+    rdest::verif::set_net(None);
+    rdest::verif::publish_listen_addr(None);
+    let first = 4usize;
+    let n = first + later;
+    let t = Torrent::new("t", 16384, &[("f", 16384 * n)], true);
+    let rt = tokio::runtime::Builder::new_current_thread().enable_all().build().map_err(|e| e.to_string())?;
+    let local = tokio::task::LocalSet::new();
+    let meta = t.meta.clone();
+    let res = local.block_on(&rt, async {
+        rdest::verif::set_http(Some(Box::new(move |_req: &reqwest::Request| crate::httpfake::respond(200, crate::fullworld::tracker_body(&[])))));
+        let mut session = rdest::Session::new(meta, *crate::world::OWN_ID);
+        let session_task = tokio::task::spawn_local(async move { session.verif_run().await });
+        let mut addr = None;
+        for _ in 0..400 {
+            tokio::time::sleep(Duration::from_millis(5)).await;
+            if let Some(a) = rdest::verif::listen_addr() {
+                addr = Some(a);
+                break;
+            }
+        }
+        let addr = addr.ok_or("the session never published its listening address".to_string())?;
+        let target = std::net::SocketAddr::from(([127, 0, 0, 1], addr.port()));
+        let mut buf = vec![0u8; 1 << 16];
+        // D: the seeder
+        let mut d = tokio::net::TcpStream::connect(target).await.map_err(|e| format!("cannot dial the client: {}", e))?;
+        d.set_nodelay(true).ok();
+        let mut all_bits = vec![true; n];
+        all_bits.truncate(n);
+        for m in [refwire::handshake(t.meta.info_hash(), b"-HS0001-lagseeder000"), Msg::Bitfield(refwire::bitfield_bytes(&all_bits)), Msg::Unchoke] {
+            d.write_all(&refwire::encode(&m)).await.map_err(|e| e.to_string())?;
+        }
+        let mut d_in: Vec<u8> = vec![];
+        let mut d_answered = 0usize;
+        // seed until the client owns `want` pieces (told by its Have frames to D)
+        async fn seed_until(d: &mut tokio::net::TcpStream, d_in: &mut Vec<u8>, d_answered: &mut usize, t: &Torrent, want: usize, buf: &mut Vec<u8>) -> Result<(), String> {
+            let started = Instant::now();
+            loop {
+                let (all, _, err) = refwire::decode_stream(d_in);
+                if let Some(e) = err {
+                    return Err(format!("client wrote undecodable bytes to the seeder: {}", e.to_string()));
+                }
+                let haves = all.iter().filter(|m| matches!(m, Msg::Have(_))).count();
+                let owned = rdest::verif::session_snapshot().map(|s| s.statuses.iter().filter(|x| **x == rdest::verif::Status::Have).count()).unwrap_or(0);
+                if haves >= want || owned >= want {
+                    return Ok(());
+                }
+                let reqs: Vec<(u32, u32, u32)> = all.iter().filter_map(|m| if let Msg::Request(i, b, l) = m { Some((*i, *b, *l)) } else { None }).collect();
+                // one piece at a time beyond what is wanted is not answered (the seeder pauses)
+                while *d_answered < reqs.len() && *d_answered < want {
+                    let (i, b, l) = reqs[*d_answered];
+                    *d_answered += 1;
+                    d.write_all(&refwire::encode(&Msg::Piece(i, b, t.pieces[i as usize][b as usize..(b + l) as usize].to_vec()))).await.map_err(|e| e.to_string())?;
+                }
+                if started.elapsed() > Duration::from_secs(40) {
+                    return Err(format!("seeding did not reach {} pieces within 40 s ({} Have frames seen)", want, haves));
+                }
+                match tokio::time::timeout(Duration::from_millis(100), d.read(buf)).await {
+                    Ok(Ok(0)) | Ok(Err(_)) => {
+                        // a client that owns everything ends the connection to a seeder
+                        let haves = refwire::decode_stream(d_in).0.iter().filter(|m| matches!(m, Msg::Have(_))).count();
+                        tokio::time::sleep(Duration::from_millis(50)).await;
+                        let owned = rdest::verif::session_snapshot().map(|s| s.statuses.iter().filter(|x| **x == rdest::verif::Status::Have).count()).unwrap_or(0);
+                        if haves >= want || owned >= want {
+                            return Ok(());
+                        }
+                        return Err(format!("the client closed the seeder's connection after {} Have frames", haves));
+                    }
+                    Ok(Ok(k)) => d_in.extend_from_slice(&buf[..k]),
+                    Err(_) => {}
+                }
+            }
+        }
+        seed_until(&mut d, &mut d_in, &mut d_answered, &t, first, &mut buf).await?;
+        // P: a leecher that chokes us throughout, declares interest and gets unchoked
+        let sock = tokio::net::TcpSocket::new_v4().map_err(|e| e.to_string())?;
+        let _ = sock.set_recv_buffer_size(32 * 1024);
+        let mut p = sock.connect(target).await.map_err(|e| format!("cannot dial the client: {}", e))?;
+        p.set_nodelay(true).ok();
+        // (the client hands out free upload slots when the bitfield arrives)
+        for m in [refwire::handshake(t.meta.info_hash(), b"-HS0001-lagleecher00"), Msg::Bitfield(refwire::bitfield_bytes(&vec![false; n])), Msg::Interested] {
+            p.write_all(&refwire::encode(&m)).await.map_err(|e| e.to_string())?;
+        }
+        let mut p_in: Vec<u8> = vec![];
+        let started = Instant::now();
+        loop {
+            let (all, _, _) = refwire::decode_stream(&p_in);
+            if all.iter().any(|m| matches!(m, Msg::Unchoke)) {
+                break;
+            }
+            if started.elapsed() > Duration::from_secs(15) {
+                return Err("the client did not unchoke the interested leecher within 15 s".to_string());
+            }
+            match tokio::time::timeout(Duration::from_millis(100), p.read(&mut buf)).await {
+                Ok(Ok(0)) | Ok(Err(_)) => return Err("the client closed the leecher's connection at once".to_string()),
+                Ok(Ok(k)) => p_in.extend_from_slice(&buf[..k]),
+                Err(_) => {}
+            }
+        }
+        // P floods requests for a piece the client owns and stops reading: its task ends up in a
+        // socket write that cannot proceed
+        let flood = 1024usize;
+        let mut out = vec![];
+        for _ in 0..flood {
+            out.extend(refwire::encode(&Msg::Request(0, 0, 16384)));
+        }
+        p.write_all(&out).await.map_err(|e| e.to_string())?;
+        tokio::time::sleep(Duration::from_millis(400)).await;
+        // meanwhile the download goes on: `later` more pieces are completed and announced
+        seed_until(&mut d, &mut d_in, &mut d_answered, &t, n, &mut buf).await?;
+        // P reads again, unchokes, and collects the announcements
+        p.write_all(&refwire::encode(&Msg::Unchoke)).await.map_err(|e| e.to_string())?;
+        let started = Instant::now();
+        let mut ended = false;
+        let mut haves: std::collections::BTreeSet<u32> = Default::default();
+        let mut order: Vec<u32> = vec![];
+        let mut quiet_since = Instant::now();
+        let mut pieces_seen = 0usize;
+        loop {
+            match tokio::time::timeout(Duration::from_millis(200), p.read(&mut buf)).await {
+                Ok(Ok(0)) | Ok(Err(_)) => {
+                    ended = true;
+                }
+                Ok(Ok(k)) => {
+                    p_in.extend_from_slice(&buf[..k]);
+                    quiet_since = Instant::now();
+                }
+                Err(_) => {}
+            }
+            let (all, used, err) = refwire::decode_stream(&p_in);
+            for m in &all {
+                match m {
+                    Msg::Have(i) => {
+                        if haves.insert(*i) {
+                            order.push(*i);
+                        }
+                    }
+                    Msg::Piece(..) => pieces_seen += 1,
+                    // what the client owned when P connected is in its bitfield
+                    Msg::Bitfield(bytes) => {
+                        for i in 0..n {
+                            if bytes.get(i / 8).map(|b| b >> (7 - i % 8) & 1 == 1).unwrap_or(false) {
+                                haves.insert(i as u32);
+                            }
+                        }
+                    }
+                    _ => {}
+                }
+            }
+            if let Some(e) = err {
+                return Ok((haves.len(), Some(("undecodable-bytes-on-lagging-connection", e.to_string()))));
+            }
+            p_in.drain(..used);
+            // done: everything announced, or the connection is over, or answers stopped coming
+            if haves.len() == n || ended {
+                break;
+            }
+            if pieces_seen >= flood && quiet_since.elapsed() > Duration::from_secs(3) || started.elapsed() > Duration::from_secs(60) {
+                break;
+            }
+        }
+        session_task.abort();
+        let verdict = if haves.len() == n || ended {
+            None
+        } else {
+            let missing: Vec<u32> = (0..n as u32).filter(|i| !haves.contains(i)).collect();
+            Some(("held-back-announcements-lost", format!("a leecher that chokes us stopped reading after {} requests (its connection task sat in a socket write) while the client completed {} more pieces; when it read again ({} answers) and unchoked, it knew of {} of {} pieces (bitfield at connect + announcements) and the connection stayed open: never announced {:?} (announced, in order: {:?})", flood, later, pieces_seen, haves.len(), n, missing, order)))
+        };
+        Ok::<_, String>((haves.len() + pieces_seen, verdict))
+    });
+    rdest::verif::set_http(None);
+    res
+}
+
 pub fn run(ctx: &Ctx) -> Outcome {
     let thorough = ctx.tier == core::Tier::Thorough;
     let mut total = explore::Stats { exhaustive: true, ..Default::default() };
@@ -354,15 +539,46 @@ pub fn run(ctx: &Ctx) -> Outcome {
         per.push(json!({"scenario": s.name(), "depth": depth, "states": st.states, "transitions": st.transitions, "depth_completed": st.depth_completed, "choice_points": st.choice_points, "frontier": st.frontier_sizes}));
         total.merge(&st);
     }
+    // a connection task that falls behind the broadcast queue (real sockets, real clock)
+    let mut lag_rows = vec![];
+    for later in ctx.tier.pick(vec![20usize, 44], vec![8usize, 20, 31, 32, 33, 44, 100]) {
+        let dir = core::private_cwd("c11", "lag");
+        match socket_lag_case(&dir, later) {
+            Ok((n, None)) => lag_rows.push(json!({"pieces_completed_during_the_stall": later, "frames_judged": n, "ok": true})),
+            Ok((n, Some((class, why)))) => {
+                lag_rows.push(json!({"pieces_completed_during_the_stall": later, "frames_judged": n, "violation": class}));
+                ctx.violation(class, why, json!({"kind": "lag", "later": later}));
+            }
+            Err(e) => ctx.machinery_error(format!("real-socket lag run ({} pieces) could not be carried out: {}", later, e)),
+        }
+    }
     let mut o = Outcome::new("model_checking");
     explore::stats_outcome(&total, &mut o);
     o.set("scenarios", Value::Array(per));
+    o.set("real_socket_lag_runs", Value::Array(lag_rows));
     o.set("rule", json!("single-block pieces; D (honest, outgoing, broadcasts ungated): P = correct answer to the oldest outstanding request (completes a piece); O1: A1 the client connects (writes handshake + bitfield), S1 peer handshake, U1/C1 unchoke/choke us, L1 release the oldest held-back broadcast to its connection task; O2 (incoming, present from the start): S2, U2/C2, L2; BFS over all interleavings, every tie-break of the chooser enumerated; states = canonical snapshots + monitor (released lists, Have frames per connection)."));
     o.assume("the property does not demand that announcements are held back while choked, only that holding back loses nothing; completion order = order of the manager's SendHave broadcasts");
     o
 }
 
 pub fn replay(_ctx: &Ctx, r: &Value) -> i32 {
+    if r["kind"] == "lag" {
+        let dir = core::private_cwd("c11", "replay");
+        return match socket_lag_case(&dir, r["later"].as_u64().unwrap() as usize) {
+            Ok((_, Some((class, why)))) => {
+                println!("VIOLATION property=C11 replay=<this file>\n  class={} {}", class, why);
+                1
+            }
+            Ok((n, None)) => {
+                println!("holds for this run ({} frames judged)", n);
+                0
+            }
+            Err(e) => {
+                eprintln!("could not be carried out: {}", e);
+                2
+            }
+        };
+    }
     let name = r["scenario"].as_str().unwrap();
     for thorough in [false, true] {
         for (s, _) in scenarios(thorough) {
